@@ -26,6 +26,7 @@ macro_rules! dispatch {
             "C12" => $f(&props::c12::C12 $(, $arg)*),
             "C16" => $f(&props::c16::C16 $(, $arg)*),
             "C19" => $f(&props::c19::C19 $(, $arg)*),
+            "C17" => $f(&props::c17::C17 $(, $arg)*),
             "C18" => $f(&props::c18::C18 $(, $arg)*),
             other => {
                 eprintln!("harness error: no check for property {other}");
